@@ -1,6 +1,7 @@
 (* C15/Props.v -- the property theorems, and nothing else. *)
-From Coq Require Import ZArith List Lia Bool QArith.
+From Coq Require Import ZArith List Lia Bool QArith Qround Qabs.
 From PV Require Import Base.NpList Base.NpSearch C15.Model C15.Spec C15.Proofs C15.Proofs2 C15.Proofs3 C15.Proofs4.
+From PV Require Import C15.ParamsModel C15.Proofs5 C15.Proofs6.
 Import ListNotations.
 Open Scope Z_scope.
 
@@ -142,6 +143,128 @@ Theorem C15_checker_rate : forall (labels ids : list Z) (bin d : Q) (R : list (l
 Proof. exact rate_b_sound. Qed.
 Print Assumptions C15_checker_rate.
 
+(* ================= stage 3 ================= *)
+
+(* ---- the checkers are also COMPLETE: an array satisfying the declarative clause passes the check, so a
+   flagged clause 21/23/24/26 is a refutation of the declarative statement on phylib's output (together with
+   C15_checker_*: checker = true <-> Spec) ---- *)
+Theorem C15_checker_onesided_complete : forall (t labels ids : list Z) (bs W : Z) (C : cube),
+  length labels = length t -> 0 <= W ->
+  OneSided_Spec t labels ids bs W C -> onesided_b t labels ids bs W C = true.
+Proof. exact onesided_b_complete'. Qed.
+Print Assumptions C15_checker_onesided_complete.
+
+Theorem C15_checker_sym_complete : forall (t labels ids : list Z) (bs W : Z) (C S' : cube),
+  length labels = length t -> 0 <= W ->
+  OneSided_Spec t labels ids bs W C -> Sym_Spec (length ids) (Z.to_nat W) C S' ->
+  let E := expected_cube t labels ids bs W in
+  let nc := length ids in let w := Z.to_nat W in
+  shape_b nc nc (2 * w + 1) S' = true /\ sym_pos_b E S' nc w = true /\ sym_mirror_b S' nc = true /\
+  sym_centre_b E S' nc w = true.
+Proof. exact sym_checks_complete'. Qed.
+Print Assumptions C15_checker_sym_complete.
+
+Theorem C15_checker_rate_complete : forall (labels ids : list Z) (bin d : Q) (R : list (list Q)),
+  Rate_Spec labels ids bin d R -> rate_b labels ids bin d R = true.
+Proof. exact rate_b_complete. Qed.
+Print Assumptions C15_checker_rate_complete.
+
+(* ---- the counts are bounded.  The code's array is np.int32 (_create_correlograms_array) and the increment
+   `arr[:len(bbins)] += bbins` casts the int64 bincount into it (same-kind cast, silent wrap-around).  No entry of a
+   correct one-sided (resp. symmetrised) correlogram exceeds n(n-1)/2, so for n <= 65536 spikes
+   (65536 * 65535 / 2 = 2147450880 < 2^31) no entry can wrap, for any labelling, bin and window. ---- *)
+Theorem C15_count_bound : forall (t labels ids : list Z) (bs W : Z) (C : cube),
+  OneSided_Spec t labels ids bs W C ->
+  forall i j k, (i < length ids)%nat -> (j < length ids)%nat -> Z.of_nat k <= W ->
+    0 <= nth k (cell C i j) 0 /\
+    2 * nth k (cell C i j) 0 <= Z.of_nat (length t) * (Z.of_nat (length t) - 1) /\
+    (Z.of_nat (length t) <= 65536 -> nth k (cell C i j) 0 < 2 ^ 31).
+Proof. exact onesided_count_bound. Qed.
+Print Assumptions C15_count_bound.
+
+Theorem C15_count_bound_sym : forall (t labels ids : list Z) (bs W : Z) (C S' : cube), 0 <= W ->
+  OneSided_Spec t labels ids bs W C -> Sym_Spec (length ids) (Z.to_nat W) C S' ->
+  forall i j k, (i < length ids)%nat -> (j < length ids)%nat -> (k <= 2 * Z.to_nat W)%nat ->
+    0 <= nth k (cell S' i j) 0 /\
+    2 * nth k (cell S' i j) 0 <= Z.of_nat (length t) * (Z.of_nat (length t) - 1) /\
+    (Z.of_nat (length t) <= 65536 -> nth k (cell S' i j) 0 < 2 ^ 31).
+Proof. exact sym_count_bound. Qed.
+Print Assumptions C15_count_bound_sym.
+
+(* ... and the bound is attained: n coincident spikes of one cluster put all n(n-1)/2 pairs into the zero-lag
+   entry -- with 65537 such spikes the true count is 2147516416 >= 2^31 (phylib returns -2147450880 there:
+   measured, see notes; outside the regime of the correspondence, which is n <= 65536) *)
+Theorem C15_count_bound_tight : forall (s c bs : Z) (n : nat),
+  2 * pair_count (repeat s n) bs (repeat c n) c c 0 = Z.of_nat n * (Z.of_nat n - 1).
+Proof. exact pair_count_coincident. Qed.
+Print Assumptions C15_count_bound_tight.
+
+(* ---- error exits of the asserts on the parameters (rate > 0, equal shapes, binsize >= 1; firing_rate:
+   bin_size > 0) and the `duration or 1.` default: None and 0 both mean 1, so there is no division by zero ---- *)
+Theorem C15_rejects_params : forall t labels ids rate bin win symm,
+  (rate <= 0)%Q \/ length t <> length labels \/ binsize_of rate bin < 1 ->
+  correlograms t labels ids rate bin win symm = None.
+Proof. exact correlograms_rejects. Qed.
+Print Assumptions C15_rejects_params.
+
+Theorem C15_rate_rejects : forall labels ids bin dur, (bin <= 0)%Q -> firing_rate labels ids bin dur = None.
+Proof. exact firing_rate_rejects. Qed.
+Print Assumptions C15_rate_rejects.
+
+Theorem C15_rate_duration : forall labels ids bin,
+  (forall dur, ~ (eff_dur dur == 0)%Q) /\
+  (forall d, (d == 0)%Q -> firing_rate labels ids bin (Some d) = firing_rate labels ids bin None) /\
+  firing_rate labels ids bin None = firing_rate labels ids bin (Some 1%Q).
+Proof.
+  intros. split; [exact eff_dur_nonzero|]. split.
+  - intros d Hd. exact (proj1 (firing_rate_zero_duration labels ids bin d Hd)).
+  - exact (proj2 (firing_rate_zero_duration labels ids bin 0%Q ltac:(reflexivity))).
+Qed.
+Print Assumptions C15_rate_duration.
+
+(* ---- THE PARAMETER LAYER (ParamsModel.v).  The code receives float64 spike times, sample_rate, bin_size and
+   window_size and derives the integers everything above is about with three float computations:
+     spike_samples = (spike_times * sample_rate).astype(int64),  binsize = int(sample_rate * clip(bin_size)),
+     winsize_bins = 2 * int(.5 * clip(window_size) / clip(bin_size)) + 1.
+   An IEEE operation returns A float64 NEAREST to the exact result (`Nearest`, relational, any tie rule).
+   In the regime the comparator checks on the abstract input of every case (Spec.params_regime: rate, bin, window
+   dyadic with numerators < 2^20 / 2^13 and denominators <= 2^12, 2^-12 <= bin, window <= 2^12, every time s/rate a
+   float64, |s| < 2^50 -- "sample rates for which time*rate is exact"), WHATEVER the rounding does:
+   the samples are the integers s, binsize is floor(rate*bin) = Model.binsize_of, winsize_bins is
+   2*Model.half_of + 1 (odd, >= 1, // 2 = half_of: the two asserts cannot fire) -- although .5*window/bin is in
+   general NOT exact (e.g. 3.5/3): its floor survives the rounding. ---- *)
+Theorem C15_params : forall (t : list Z) (rate bin win : Q) (times : list Q) (samples : list Z) (bs wb : Z),
+  params_regime t rate bin win = true ->
+  Forall2 (fun tm s => (tm == inject_Z s / rate)%Q) times t ->
+  f_samples times rate samples -> f_binsize rate bin bs -> f_winsize bin win wb ->
+  (Forall is_f64 times /\ is_f64 rate /\ is_f64 bin /\ is_f64 win) /\
+  samples = t /\ bs = binsize_of rate bin /\
+  wb = 2 * half_of bin win + 1 /\ wb / 2 = half_of bin win /\ wb mod 2 = 1 /\ 1 <= wb.
+Proof. exact params_exact. Qed.
+Print Assumptions C15_params.
+
+(* what `Nearest` gives (the only facts about rounding used): an exactly representable result is returned
+   exactly; a result never leaves an interval whose end points are floats; and `Nearest` is satisfiable for inexact
+   results: a normalised float within half an ulp of x is a nearest float of x *)
+Theorem C15_nearest :
+  (forall x f, is_f64 x -> Nearest x f -> (f == x)%Q) /\
+  (forall x f lo hi, is_f64 lo -> is_f64 hi -> (lo <= x)%Q -> (x <= hi)%Q -> Nearest x f -> (lo <= f)%Q /\ (f <= hi)%Q) /\
+  (forall m e x, 2 ^ 52 < m < 2 ^ 53 -> -1074 <= e <= 971 ->
+     (Qabs (x - inject_Z m * 2 ^ e) * 2 <= 2 ^ e)%Q -> Nearest x (inject_Z m * 2 ^ e)).
+Proof. split; [exact Nearest_exact|]. split; [exact Nearest_sandwich|exact nearest_criterion]. Qed.
+Print Assumptions C15_nearest.
+
+(* the constant of np.clip(x, 1e-5, 1e5): float64(1e-5) is 5902958103587057 / 2^69 -- a float nearest to 10^-5,
+   slightly above it -- and on [2^-12, 2^12] both the float clip and the rational clip of Model.v are the identity *)
+Theorem C15_clip_constant :
+  Nearest clip_lo clip_lo_f /\ (clip_lo < clip_lo_f)%Q /\
+  forall x, in_range (1 # 4096) (4096 # 1) x = true -> clipf x = x /\ clip5 x = x.
+Proof.
+  split; [exact clip_lo_f_nearest|]. split; [exact (proj1 clip_lo_f_close)|].
+  intros x H. destruct (in_range_clip x H) as (A & B & _). now split.
+Qed.
+Print Assumptions C15_clip_constant.
+
 (* ---- non-vacuity: concrete, non-trivial instances ---- *)
 (* 5 spikes, two at the same sample, ids in the caller's order [7; 4; 9; 1] (7 and 9 have no spikes),
    binsize 1, W = 2 *)
@@ -190,3 +313,45 @@ Example C15_ex_checker :
   onesided_b [0; 0; 1; 1; 2] [4; 1; 1; 4; 4] [1; 4] 1 2 [ [[0;1;0]; [1;2;1]]; [[1;1;0]; [0;2;1]] ] = true /\
   onesided_b [0; 0; 1; 1; 2] [4; 1; 1; 4; 4] [1; 4] 1 2 [ [[0;1;0]; [1;2;1]]; [[1;1;0]; [0;2;2]] ] = false.
 Proof. vm_compute. tauto. Qed.
+
+(* ---- stage 3 examples ---- *)
+Example C15_ex_checker_complete :
+  OneSided_Spec [0; 0; 1; 1; 2] [4; 1; 1; 4; 4] [1; 4] 1 2 [ [[0;1;0]; [1;2;1]]; [[1;1;0]; [0;2;1]] ].
+Proof. apply C15_checker_onesided; [reflexivity|lia|vm_compute; reflexivity]. Qed.
+Example C15_ex_rate_complete :
+  rate_b [4; 1; 4; 4] [4; 9; 1] (1 # 4) (2 # 1) [ [9 # 8; 0; 3 # 8]; [0; 0; 0]; [6 # 16; 0; 1 # 8] ]%Q = true.
+Proof. vm_compute. reflexivity. Qed.
+(* 65537 coincident spikes: the true count no longer fits int32 (nothing is evaluated on the 65537-element lists) *)
+Example C15_ex_count_tight :
+  pair_count (repeat 0 (Z.to_nat 65537)) 1 (repeat 7 (Z.to_nat 65537)) 7 7 0 = 2147516416 /\ 2 ^ 31 <= 2147516416 /\
+  2 * 2147450880 = 65536 * 65535 /\ 2147450880 < 2 ^ 31.
+Proof.
+  split; [|split; [|split]]; [|vm_compute; congruence|reflexivity|reflexivity].
+  pose proof (C15_count_bound_tight 0 7 1 (Z.to_nat 65537)) as H. rewrite Z2Nat.id in H by lia. lia.
+Qed.
+Example C15_ex_rejects :
+  correlograms [0; 1] [1; 1] None 1 (1 # 2) 2 false = None /\ binsize_of 1 (1 # 2) = 0 /\
+  firing_rate [1; 1] None 0 None = None /\
+  option_map (map (map Qred)) (firing_rate [1; 1] None (1 # 2) (Some 0%Q)) = Some [[2 # 1]]%Q.
+Proof. vm_compute. tauto. Qed.
+(* the parameter layer on a case whose division is NOT exact: times [0;1;2;2] s at rate 3, bin 3 s, window 7 s:
+   .5 * 7 / 3 = 1.1666..., rounded to 5254199565265579 / 2^52, int() = 1 = half_of 3 7, winsize_bins = 3 *)
+Example C15_ex_params :
+  params_regime [0; 3; 6; 6] 3 3 7 = true /\
+  Forall2 (fun tm s => (tm == inject_Z s / 3)%Q) [0; 1; 2; 2]%Q [0; 3; 6; 6] /\
+  f_samples [0; 1; 2; 2]%Q 3 [0; 3; 6; 6] /\ f_binsize 3 3 9 /\ f_winsize 3 7 3 /\
+  binsize_of 3 3 = 9 /\ half_of 3 7 = 1.
+Proof.
+  split; [vm_compute; reflexivity|]. split; [repeat constructor|]. split; [|split; [|split; [|split; vm_compute; reflexivity]]].
+  - assert (S : forall (tm : Q) (s : Z), Z.abs s < 2 ^ 53 -> (inject_Z s == tm * 3)%Q ->
+                  exists p, Nearest (tm * 3) p /\ s = Qtrunc p).
+    { intros tm s Hs E. exists (inject_Z s). split; [|symmetry; apply Qtrunc_Z; reflexivity].
+      apply (Nearest_wd (inject_Z s)); [exact E|]. apply Nearest_refl, is_f64_Z, Hs. }
+    repeat constructor; apply S; (reflexivity || (vm_compute; reflexivity)).
+  - exists 9%Q. split; [|reflexivity]. apply (Nearest_wd (inject_Z 9)); [vm_compute; reflexivity|].
+    apply Nearest_refl, is_f64_Z. reflexivity.
+  - exists (7 # 2)%Q, (5254199565265579 # Z.to_pos (2 ^ 52))%Q. split; [|split; [|vm_compute; reflexivity]].
+    + apply (Nearest_wd (7 # 2)); [vm_compute; reflexivity|]. apply Nearest_refl.
+      apply (is_f64_Qmake 7 2 1); [reflexivity|lia|reflexivity].
+    + apply (Nearest_wd ((7 # 2) / 3)); [vm_compute; reflexivity|]. exact nearest_7_6.
+Qed.
